@@ -202,6 +202,26 @@ func (c *streamCtx) dirBranches(kind string) []genCase {
 			}
 		}
 	}
+	if kind == "dry" {
+		// large scale-downs (more candidates and a higher rate than the small worlds have) under every dry switch, and wet
+		for i, v := range []struct{ group, global bool }{{true, false}, {false, true}, {true, true}, {false, false}} {
+			for _, rate := range []int{10, 25} {
+				idx++
+				s := newSpec(c.base, nsOffsets[idx%3])
+				s.GlobalDry = v.global
+				b := s.group("g1")
+				b.o.DryMode = v.group
+				b.o.MinNodes, b.o.MaxNodes, b.asgMax = 1, 40, 40
+				b.o.FastNodeRemovalRate, b.o.SlowNodeRemovalRate = rate, 9
+				for k := 0; k < 12+6*i; k++ {
+					b.node(k, int64(7200+13*k))
+				}
+				b.util([]int64{0, 35}[idx%2], 0, true, false)
+				b.done()
+				out = append(out, single(s, fmt.Sprintf("dry large scale-down: group=%v global=%v rate=%d nodes=%d", v.group, v.global, rate, 12+6*i)))
+			}
+		}
+	}
 	if kind == "annot" {
 		// max_node_age enabled, the group exactly at its minimum, two tainted nodes of which one is protected — in both lister orders
 		for i, pct := range []int64{250, 55, 5, 120} {
